@@ -7,7 +7,12 @@ FLOATS = [0.1, 1e300, -0.0, 1.2345678901234567, 5.0, 1.0, 0.0]
 ATTR_NAMES = ["ex:k", "prov:type", "prov:label", "prov:value", "prov:location", "prov:role", "k"]  # "k": name in the default namespace
 VALUE_KINDS = ["str", "int", "bool", "float", "datetime", "qname", "qname_other_prefix", "uri", "lang_literal",
                "foreign_literal", "typed_int_literal", "multi_str_int", "multi_qname", "empty_str", "big_text",
-               "hostile_str", "hostile_foreign_literal", "hostile_lang_literal", "equal_values_of_different_kinds"]
+               "hostile_str", "hostile_foreign_literal", "hostile_lang_literal", "equal_values_of_different_kinds",
+               "xsd_qname_literal", "qname_in_w3c_like_namespace", "lang_literal_mixed_case_tag"]
+# namespaces whose URI merely resembles a well-known one (prefix-of / suffix-of the XSD, XSI and PROV namespaces)
+W3C_LIKE = [("xsi", "http://www.w3.org/2001/XMLSchema-instance", "nil"), ("dt", "http://www.w3.org/2001/XMLSchema-datatypes#", "x"),
+            ("po", "http://www.w3.org/ns/prov-o#", "Entity"),
+            ("pv", "http://www.w3.org/ns/prov", "x"), ("xsd2", "http://www.w3.org/2001/XMLSchema#extra/", "int")]
 # texts whose handling no branch of prov depends on (so the solver has no reason to pick them): catalogue
 HOSTILE = ["  lead", "trail  ", "\n x \n", "a  b", "\t", " ", "prov:x", "None", "line1\n  line2\n\nline4", 'q"uo"te\'s', "back\\slash\\",
            "<b>&amp;</b>", "%41%20", "é中\U0001f600"]
@@ -95,6 +100,16 @@ def make_value(ctx, d, vk, strlen=2, text_kind="any"):
         return [Literal(HOSTILE[ctx.choose("hs", len(HOSTILE))], QualifiedName(Namespace("ex", EX), "dt"))]
     if name == "hostile_lang_literal":
         return [Literal(HOSTILE[ctx.choose("hs", len(HOSTILE))], None, "en")]
+    if name == "xsd_qname_literal":
+        # a LITERAL typed xsd:QName (not a qualified name); not XML-expressible (C02's quantifier excludes it)
+        return [Literal(("ex:edit", "nope:x", "plain")[ctx.choose("ql", 3)], pc.XSD_QNAME)]
+    if name == "qname_in_w3c_like_namespace":
+        pfx, uri, loc = W3C_LIKE[ctx.choose("w3", len(W3C_LIKE))]
+        # open finding <property>.xsi_prefix_not_declared (PROV-JSON / PROV-N print xsi:... without declaring xsi)
+        ctx.finding("%s.xsi_prefix_not_declared" % ctx.params.get("prop", "C01"), pfx == "xsi")
+        return [QualifiedName(Namespace(pfx, uri), loc)]
+    if name == "lang_literal_mixed_case_tag":
+        return [Literal("colour", None, ("en-GB", "zh-Hant-TW", "pt-BR")[ctx.choose("lt", 3)])]
     if name == "equal_values_of_different_kinds":
         # values that compare equal in Python but differ in kind, in DIFFERENT attributes of one record
         return [("ex:t", True), ("ex:one", 1), ("ex:onef", 1.0), ("ex:f", False), ("ex:zero", 0), ("ex:zerof", 0.0), ("ex:mz", -0.0),
@@ -140,6 +155,35 @@ def values_doc(ctx, attr_idx, vk, ns_mode, in_bundle, strlen=2, text_kind="any")
         attr = "ex:k"  # an unprefixed attribute name needs a default namespace
     ident = "e1" if mode in ("doc_default", "bundle_default") else "ex:e1"
     target.entity(ident, [(v if isinstance(v, tuple) else (attr, v)) for v in vals])
+    shadow_guard(ctx, d)
+    return d
+
+
+def twin_bundles_doc(ctx):
+    """two sibling bundles that bind the SAME prefix (and optionally a default namespace) to symbolic, possibly different
+    URIs and use the same attribute-name / identifier strings; plus an empty bundle"""
+    from prov.model import ProvDocument
+
+    d = ProvDocument()
+    d.add_namespace("ex", EX)
+    d.add_namespace("bid", "http://bid/")
+    uris = []
+    for i in (1, 2):
+        b = d.bundle("bid:b%d" % i)
+        u = ctx.str("lab%d" % i, 3, 2, "uri")
+        uris.append(u)
+        b.add_namespace("lab", u)
+        mode = ctx.choose("m%d" % i, 3)
+        if mode == 1:
+            du = ctx.str("def%d" % i, 3, 2, "uri")
+            uris.append(du)
+            b.set_default_namespace(du)
+            b.entity("item", [("lab:weight", ctx.bigint("w%d" % i)), ("size", "L")])
+        else:
+            b.entity("lab:item", [("lab:weight", ctx.bigint("w%d" % i))] + ([("ex:k", "v")] if mode == 2 else []))
+    if ctx.bool("empty_bundle"):
+        d.bundle("bid:empty")
+    uri_guard(ctx, uris, ["lab"])
     shadow_guard(ctx, d)
     return d
 
